@@ -5,6 +5,7 @@
 package main
 
 import (
+	"runtime/pprof"
 	"flag"
 	"fmt"
 	"os"
@@ -49,7 +50,13 @@ func main() {
 		out := fs.String("out", "-", "result json")
 		verbose := fs.Int("v", 0, "")
 		knownF := fs.String("known", "/verif/known_findings.json", "")
+		prof := fs.String("cpuprofile", "", "")
 		fs.Parse(os.Args[2:])
+		if *prof != "" {
+			f, _ := os.Create(*prof)
+			pprof.StartCPUProfile(f)
+			defer pprof.StopCPUProfile()
+		}
 		t0 := time.Now()
 		p, err := load.Load(*repo, *hdir, "./...")
 		if err != nil {
@@ -59,6 +66,9 @@ func main() {
 		known := loadKnown(*knownF)
 		res := runWorker(p, time.Since(t0).Seconds(), *harness, parseBounds(*b), *solver, *tmo, *budget, known, *verbose)
 		writeJSON(*out, res)
+		if *prof != "" {
+			pprof.StopCPUProfile()
+		}
 	case "check":
 		os.Exit(cmdCheck(os.Args[2:]))
 	case "serve":
